@@ -16,12 +16,18 @@ Import ListNotations.
 From Molli Require Import Model.Job.
 Local Open Scope string_scope.
 
+(* how a command that does not succeed ends: it exits with a positive status, or it is KILLED BY A SIGNAL (OOM killer,
+   scheduler, segfault, kill): subprocess reports the negative signal number, and run_local records that as the exit
+   code of the job.  Either way the recorded code is not 0. *)
+Inductive ecode := Exit (k : positive) | Signal (s : positive).
+Definition ecode_Z (e : ecode) : Z := match e with Exit k => Zpos k | Signal s => Zneg s end.
+
 (* scripted outcome of one execution of one (sub-)item *)
 Inductive okind :=
-| OSucceed                     (* commands succeed, return file written          -> exit code 0 *)
-| OFail (code : positive)      (* a command fails before the return file exists  -> exit code `code` *)
-| OFailFile (code : positive)  (* the return file is written, then a command fails -> exit code `code` *)
-| OOmit.                       (* commands succeed but the return file is missing -> exit code 1 (run_local) *)
+| OSucceed                  (* commands succeed, return file written          -> exit code 0 *)
+| OFail (code : ecode)      (* a command fails / is killed before the return file exists -> exit code `code` *)
+| OFailFile (code : ecode)  (* the return file is written, then a command fails / is killed -> exit code `code` *)
+| OOmit.                    (* commands succeed but the return file is missing -> exit code 1 (run_local) *)
 
 (* a JobOutput as jobmap sees it *)
 Record output := mk_out {
@@ -66,8 +72,8 @@ Definition valid (p : jparams) (e : option centry) : bool :=
 Definition out_of (arg : string) (k : okind) (n : N) : output :=
   match k with
   | OSucceed => mk_out arg 0 true n
-  | OFail c => mk_out arg (Zpos c) false n
-  | OFailFile c => mk_out arg (Zpos c) true n
+  | OFail c => mk_out arg (ecode_Z c) false n
+  | OFailFile c => mk_out arg (ecode_Z c) true n
   | OOmit => mk_out arg 1 false n
   end.
 
@@ -78,8 +84,11 @@ Definition mem (x : string) (l : list string) : bool := existsb (String.eqb x) l
    command of one execution does, as far as jobmap can tell: does it write the return file, and its exit code. *)
 Record cstep := mk_cs {
   cs_named : bool;               (* named (recorded) or None: makes no difference to the outcome (run_cmds ignores it) *)
-  cs_write : bool;               (* writes the return file (before it exits) *)
-  cs_code : option positive }.   (* None: exit code 0; Some c: the command fails with exit code c *)
+  cs_write : bool;               (* writes the return file (before it exits / is killed) *)
+  cs_code : option ecode;        (* None: exit code 0; Some c: the command fails with exit status / dies from signal c *)
+  cs_crash : bool }.             (* (only for a command that does not succeed) not the command but the RUNNER process
+                                    ends here -- it is killed, or the command's program does not exist and
+                                    subprocess.run raises inside _molli_run --: no output file is written at all *)
 
 (* the outcome of an execution from its commands: they run in order up to and INCLUDING the first failing one (named
    or not, last or not), whose exit code is the recorded one; the return file exists iff an executed command wrote it;
@@ -95,12 +104,19 @@ Fixpoint run_cmds (file : bool) (l : list cstep) : okind :=
       end
   end.
 
+(* does the runner die during this execution?  (at its first command that does not succeed) *)
+Fixpoint crash_cmds (l : list cstep) : bool :=
+  match l with
+  | [] => false
+  | c :: r => match cs_code c with None => crash_cmds r | Some _ => cs_crash c end
+  end.
+
 (* outcome oracle given by per-execution command scripts *)
 Definition cmd_outcome (script : string -> N -> list cstep) (nm : string) (n : N) : okind := run_cmds false (script nm n).
 
 (* the same commands as an oracle for the run_local model of Model/Job.v (C17): command type = cstep, the return file
    is `rf`, a writing command stores `payload` in it *)
-Definition cs_exit (c : cstep) : Z := match cs_code c with Some k => Zpos k | None => 0%Z end.
+Definition cs_exit (c : cstep) : Z := match cs_code c with Some k => ecode_Z k | None => 0%Z end.
 Definition step_exec (rf payload : string) (c : cstep) (e : env) (f : fs) : cmd_result :=
   mk_res (cs_exit c) "" "" (if cs_write c then dset rf payload f else f) [].
 
@@ -163,12 +179,66 @@ Section Jobmap.
     match evs with [] => [] | ev :: r => let st1 := jstep st ev in st1 :: jtrace st1 r end.
 End Jobmap.
 
+
+(* ------------------------------------------------------------------ round 3: the handle's view, a runner that dies *)
+(* (1) `Collection.keys()` returns the key set the HANDLE holds in memory; it is refreshed from the file only on
+   entering reading()/writing().  jobmap computes `skip_keys` from that view: todo_seen is the work list for a given
+   view; jobmap takes the view inside `with destination.reading()`, i.e. the keys of the file (jobmapX below; a
+   fresh handle, or one whose file another handle / process wrote to, holds a stale view -- Proofs: stale_view_refuted).
+   (2) The runner process of an execution may die before it writes its output file (it is killed; the program of a
+   command does not exist and subprocess.run raises): `crashes nm n`.  The execution took place (counter), but no
+   output is written.  jobmap removes the old output it judged unsuitable BEFORE it dispatches the item (repair
+   df05caa), so the cache has no entry for the item afterwards.  before_repair = true is the code before that repair:
+   the old output stays, and the finalisation loads it without looking at its input hash
+   (Proofs: stale_output_stored_refuted_before_repair). *)
+Definition drm {V} (k : string) (d : list (string * V)) : list (string * V) :=
+  filter (fun kv => negb (String.eqb k (fst kv))) d.
+
+Section JobmapX.
+  Variable outcome : string -> N -> okind.
+  Variable crashes : string -> N -> bool.
+  Variable before_repair : bool.
+
+  Definition exec_oneX (p : jparams) (st : jstate) (nm : string) : jstate :=
+    if crashes nm (cnt st nm)
+    then mk_js (js_src st) (js_dst st) (if before_repair then js_cache st else drm nm (js_cache st))
+               (dset nm (cnt st nm + 1)%N (js_count st))
+    else exec_one outcome p st nm.
+
+  Definition todo_seen (seen : list string) (st : jstate) : list (string * nat) :=
+    filter (fun kl => negb (mem (fst kl) seen)) (js_src st).
+  Definition runlist_seen (p : jparams) (seen : list string) (st : jstate) : list string :=
+    flat_map (fun kl => filter (fun nm => negb (valid p (dget nm (js_cache st)))) (names p kl)) (todo_seen seen st).
+
+  Definition jobmapX_seen (p : jparams) (seen : list string) (st : jstate) : jstate :=
+    let td := todo_seen seen st in
+    let st1 := fold_left (exec_oneX p) (runlist_seen p seen st) st in
+    mk_js (js_src st1) (fold_left (finalise p (js_cache st1)) td (js_dst st1)) (js_cache st1) (js_count st1).
+
+  (* with destination.reading(): skip_keys = destination.keys() *)
+  Definition jobmapX (p : jparams) (st : jstate) : jstate := jobmapX_seen p (map fst (js_dst st)) st.
+
+  Definition jstepX (st : jstate) (ev : jevent) : jstate :=
+    match ev with JRun p => jobmapX p st | _ => jstep outcome st ev end.
+  Fixpoint jtraceX (st : jstate) (evs : list jevent) : list jstate :=
+    match evs with [] => [] | ev :: r => let st1 := jstepX st ev in st1 :: jtraceX st1 r end.
+End JobmapX.
+
+(* new entries of the destination come from outputs of THIS input (the job argument stands for the input hash) *)
+Definition value_of_arg (a : string) (v : value) : bool := forallb (fun x => String.eqb (fst x) a) v.
+
 (* ------------------------------------------------------------------ correspondence *)
 (* scripted outcome streams: name -> the command scripts of attempt 0, 1, ...; beyond the list: success *)
 Definition plan_outcome (plans : list (string * list (list cstep))) (nm : string) (n : N) : okind :=
   match dget nm plans with
   | Some l => match nth_error l (N.to_nat n) with Some cmds => run_cmds false cmds | None => OSucceed end
   | None => OSucceed
+  end.
+
+Definition plan_crashes (plans : list (string * list (list cstep))) (nm : string) (n : N) : bool :=
+  match dget nm plans with
+  | Some l => match nth_error l (N.to_nat n) with Some cmds => crash_cmds cmds | None => false end
+  | None => false
   end.
 
 Definition out_eqb (a b : output) : bool :=
@@ -205,4 +275,4 @@ Fixpoint all2 {A B} (e : A -> B -> bool) (a : list A) (b : list B) : bool :=
   match a, b with [], [] => true | x :: a', y :: b' => e x y && all2 e a' b' | _, _ => false end.
 
 Definition check_jcase (c : jcase) : bool :=
-  all2 jobs_eqb (jtrace (plan_outcome (jc_plans c)) (jc_init c) (jc_events c)) (jc_obs c).
+  all2 jobs_eqb (jtraceX (plan_outcome (jc_plans c)) (plan_crashes (jc_plans c)) false (jc_init c) (jc_events c)) (jc_obs c).
